@@ -110,11 +110,12 @@ def decRecs (stride : Nat) : Nat → Bytes → Except DecErr (List ZoneStatusDat
     pure (z :: zs, rest)
 
 /-- `ZoneStatusDecoder.decode(buffer, header)` -/
-def decode (buffer : Bytes) (_nonRepeat repeatLen repeatCount : Nat) : Except DecErr (Msg × Bytes) :=
+def decode (buffer : Bytes) (nonRepeat repeatLen repeatCount : Nat) : Except DecErr (Msg × Bytes) :=
   if repeatLen = 0 ∧ repeatCount = 0 then .ok (.request, buffer)
   else if repeatLen < recSize then .error .decodeError
   else do
-    let (zs, rest) ← decRecs repeatLen repeatCount buffer
+    -- `buffer = buffer[header.non_repeat_length:]`: the announced non-repeating data is skipped
+    let (zs, rest) ← decRecs repeatLen repeatCount (buffer.drop nonRepeat)
     pure (.status zs, rest)
 
 /-! ### canonical text -/
